@@ -45,6 +45,8 @@ class Stub:
     AddrFormatError = AddrFormatError
     mac_unix_expanded = object()
     A4, L4, A6 = '10.0.0.1', '10.1', 'fe80::1'
+    # the longest textual form of an IPv6 address (embedded IPv4 tail)
+    A6L = 'abcd:ef01:2345:6789:abcd:ef01:192.168.254.254'
     net = None          # set by EUI-64 scenarios: dict(first=, ip=, v6=)
     mac = None          # symbolic 48-bit value of the placeholder MAC
 
@@ -108,7 +110,7 @@ class Stub:
     def valid_ipv6(cls, addr, flags=0):
         if not isinstance(addr, (str, SymStr)):
             raise TypeError('str expected')
-        if _is(addr, cls.A6):
+        if _is(addr, cls.A6) or _is(addr, cls.A6L):
             return True
         return cls._malformed('v6')
 
@@ -266,7 +268,7 @@ def scen_scope(ctx, M):
     nu = M.nu
     L = ctx.choice('L', list(range(0, ctx.p['maxtail'] + 1)))
     tail = ctx.str('tail', L, frozenset(b'%a1'))
-    base = ctx.choice('base', [Stub.A6, 'fe80::x'])
+    base = ctx.choice('base', [Stub.A6, 'fe80::x', Stub.A6L])
     text = cat(base, tail)
     if ctx.sym:
         core.ENG.allow_tokens = True       # "[%s]" % address
@@ -279,7 +281,7 @@ def scen_scope(ctx, M):
     ctx.check('C11-ipv6-never-raises', r[0] == 'ret' and r2[0] == 'ret')
     # reference: no scope and the text is the address, or address % scope
     # with 1..15 scope characters (the scope follows the LAST %)
-    if base == Stub.A6:
+    if base in (Stub.A6, Stub.A6L):
         alts = [L == 0]
         for k in range(1, min(L, 16)):
             # tail = '%' + scope, scope has k chars without further '%'...
